@@ -26,8 +26,9 @@ Definition tld_check (tlds : list str) (e : env) (s : str) : res bool :=
              end in
   if ok then Ok true
   else match hostname r with
+       | Some [] => Ok false
        | Some h => Ok (is_special_host h)
-       | None => Exc TypeError            (* is_special_host(None) *)
+       | None => Ok false                 (* the pattern saw a host, the parser none *)
        end.
 
 Definition is_url_in (tlds : list str) (e : env) (o : is_url_opts) (string : str) : res bool :=
